@@ -56,6 +56,7 @@ type SweepEv struct {
 	Fr   int      `json:"fr"`
 	Subj Paths    `json:"subj"`
 	Clip Paths    `json:"clip"`
+	Open Paths    `json:"open"` // open subject lines (a third of the events)
 	Tree bool     `json:"tree"` // executed through ExecutePolyTree64 (owners matter)
 
 	Out     string `json:"out"`
@@ -105,6 +106,9 @@ func execSweep(r *rand.Rand, e *SweepEv) {
 		}
 		defer func() { clipper.VerifSweepHook, clipper.VerifIntersectHook, clipper.VerifOutRecHook = nil, nil, nil }()
 		c.AddPaths(toPaths64(e.Subj), clipper.Subject, false)
+		if len(e.Open) > 0 {
+			c.AddPaths(toPaths64(e.Open), clipper.Subject, true)
+		}
 		c.AddPaths(toPaths64(e.Clip), clipper.Clip, false)
 		if e.Tree {
 			t := clipper.NewPolyTree64()
@@ -166,7 +170,11 @@ func driveSweep(r *rand.Rand, w *writer, n int) {
 		default:
 			subj, clip = genClosedSet(r, 8), genClosedSet(r, 2)
 		}
-		e := &SweepEv{Ev: "Sweep", Chk: chkFor("SWEEP"), Ct: 1 + r.Intn(4), Fr: r.Intn(4), Subj: subj, Clip: clip, Tree: r.Intn(3) == 0}
+		e := &SweepEv{Ev: "Sweep", Chk: chkFor("SWEEP"), Ct: 1 + r.Intn(4), Fr: r.Intn(4), Subj: subj, Clip: clip, Open: Paths{}, Tree: r.Intn(3) == 0}
+		if r.Intn(3) == 0 {
+			e.Open = genOpenSet(r)
+			e.Ct = 1 + r.Intn(3) // open paths are not defined for Xor
+		}
 		execSweep(r, e)
 		w.emit(e)
 	}
